@@ -18,6 +18,9 @@ package apd
 // has zero precision, no rounding will occur. If c has no Rounding specified,
 // RoundHalfUp is used.
 func (c *Context) Round(d, x *Decimal) (Condition, error) {
+	if c.shouldSetAsNaN(x, nil) {
+		return c.setAsNaN(d, x, nil)
+	}
 	return c.goError(c.round(d, x))
 }
 
